@@ -96,6 +96,41 @@ theorem placeVelocities_zero_elsewhere (nrows : Nat) (rows : List (Nat × Vec)) 
 theorem placeVelocities_static (nrows : Nat) : placeVelocities nrows [] = List.replicate nrows 0 := by
   rfl
 
+/-! ### adimensional velocities: the scaling step (clause "with adimensional velocities they are divided by the mean
+    junction speed of the frame").  The code computes `b' = b / average_velocity * velocity_normalization` on the
+    assembled right-hand side; the theorems below say that this is the same as placing the scaled velocities.
+    The mean speed itself (a mean of square roots) is not modelled and stays with the per-run oracle. -/
+
+/-- C13, adimensional clause, general form: applying to every entry of the right-hand side a function that fixes 0
+    is the same as placing the velocities with that function applied to both components — for every number of rows,
+    every placement list (no hypothesis on the row numbers) and every such function -/
+theorem placeVelocities_map (f : Rat → Rat) (hf : f 0 = 0) (nrows : Nat) (rows : List (Nat × Vec)) :
+    placeVelocities nrows (rows.map fun p => (p.1, (⟨f p.2.x, f p.2.y⟩ : Vec))) = (placeVelocities nrows rows).map f :=
+  C13.placeVelocities_map f hf nrows rows
+
+/-- C13, adimensional clause: multiplying the right-hand side by a factor `c` is the same as placing the velocities
+    `c • v` (`Vec.smul`), for every `c` -/
+theorem placeVelocities_smul (nrows : Nat) (rows : List (Nat × Vec)) (c : Rat) :
+    placeVelocities nrows (rows.map fun p => (p.1, Vec.smul c p.2)) = (placeVelocities nrows rows).map (c * ·) :=
+  C13.placeVelocities_map (c * ·) (Rat.mul_zero c) nrows rows
+
+/-- C13, adimensional clause, literally the code's `b / average_velocity * velocity_normalization`: the scaled
+    right-hand side is the placement of the velocities `v / m * k` (componentwise), `m` = mean junction speed,
+    `k` = normalisation.  No hypothesis `m ≠ 0` is needed: both sides apply the same function `x ↦ x / m * k`, so the
+    statement also holds under Lean's `x / 0 = 0`; the real code raises on `m = 0` (a frame at rest), which is outside
+    the property. -/
+theorem placeVelocities_div_mul (nrows : Nat) (rows : List (Nat × Vec)) (m k : Rat) :
+    placeVelocities nrows (rows.map fun p => (p.1, (⟨p.2.x / m * k, p.2.y / m * k⟩ : Vec)))
+      = (placeVelocities nrows rows).map (fun b => b / m * k) :=
+  C13.placeVelocities_map (fun b => b / m * k) (by simp) nrows rows
+
+/-- the scaling on a concrete right-hand side: velocity (3, 4), mean speed 5, normalisation 2 -/
+example : placeVelocities 4 ([(2, (⟨3, 4⟩ : Vec))].map fun p => (p.1, (⟨p.2.x / 5 * 2, p.2.y / 5 * 2⟩ : Vec)))
+    = [0, 0, 6 / 5, 8 / 5] := by decide +kernel
+example : (placeVelocities 4 [(2, (⟨3, 4⟩ : Vec))]).map (fun b => b / 5 * 2) = [0, 0, 6 / 5, 8 / 5] := by decide +kernel
+/-- the hypothesis of `placeVelocities_map` is satisfiable by a non-trivial function -/
+example : (fun b : Rat => b / 5 * 2) 0 = 0 ∧ (fun b : Rat => b / 5 * 2) 3 = 6 / 5 := by decide +kernel
+
 /-! non-vacuity -/
 example : placeVelocities 4 [(2, ⟨3, 4⟩)] = [0, 0, 3, 4] := by decide +kernel
 
